@@ -51,16 +51,18 @@ def gen_cases(ctx):
         n = rng.choice([1, 2, 4, 6, 9])
         prior = rng.randint(1, n) if rng.random() < 0.3 else None
         cases.append(dict(cfg=cfg, n=n, tail=None, table=[['u']] * n, fkind='module', kwargs={},
-                          schedule=dict(priority=list(range(n)), hold=True, hold_ms=250, quiet_ms=15), demand=['N*'], label='withheld',
-                          prior_n=prior, pre_model=(prior, prior) if prior else (0, 0)))
+                          schedule=dict(priority=list(range(n)), hold=True, hold_ms=250, quiet_ms=15,
+                                        expect_draws=min(n, cfg['nworkers'] + cfg['extracache']), expect_busy=min(n, cfg['nworkers'])),
+                          demand=['N*'], label='withheld', prior_n=prior, pre_model=(prior, prior) if prior else (0, 0)))
     # more workers than this machine has cores: the window and the number of busy processes must still be nworkers
     import os
     for extra in ([1] if ctx.quick else [1, 3]):
         nw = (os.cpu_count() or 1) + extra
         n = nw + 2
         cases.append(dict(cfg=dict(nworkers=nw, extracache=0, skipNone=True, maxtasksperchild=None), n=n, tail=None, table=[['u']] * n,
-                          fkind='module', kwargs={}, schedule=dict(priority=list(range(n)), hold=True, hold_ms=600, quiet_ms=15),
-                          demand=['N*'], label='withheld', timeout=60))
+                          fkind='module', kwargs={}, schedule=dict(priority=list(range(n)), hold=True, hold_ms=600, quiet_ms=15,
+                                                                   expect_draws=nw, expect_busy=nw, hold_max_ms=20000),
+                          demand=['N*'], label='withheld', timeout=90))
     return cases
 
 
